@@ -223,6 +223,11 @@ func (fr *frame) instr(in ssa.Instruction, st *State) {
 			fr.pseudoAt("mapwrite."+n, x, []TV{m, k, v}, st)
 		}
 		mt := x.Map.Type().Underlying().(*types.Map)
+		if ck, ok := fr.canonKey(k, mt.Key(), st); ok {
+			k = TV{T: ck, S: "Int", GT: mt.Key()}
+		} else if _, isStruct := mt.Key().Underlying().(*types.Struct); isStruct {
+			s.note("%s: update of a map keyed by %s that cannot be flattened: stored under the value's reference", fk, mt.Key().String())
+		}
 		dn, vn := MapMapNames(mt)
 		ks, vs := SortOf(mt.Key()), SortOf(mt.Elem())
 		dms := "(Array Int (Array " + ks + " Bool))"
@@ -656,6 +661,34 @@ func (fr *frame) sliceOp(x *ssa.Slice, st *State) {
 	}
 }
 
+// canonKey: Go compares struct map keys field by field; struct VALUES are references in
+// this model, so a struct key is replaced by an uninterpreted function of its (flat,
+// non-struct) field values. Equal fields give the same key (congruence); the function is
+// not assumed injective, which only adds behaviours (a lookup may hit where Go misses).
+// Returns ok=false for keys it cannot flatten (nested structs, arrays).
+func (fr *frame) canonKey(k TV, kt types.Type, st *State) (string, bool) {
+	stt, ok := kt.Underlying().(*types.Struct)
+	if !ok {
+		return "", false
+	}
+	s := fr.s
+	var sorts, args []string
+	for i := 0; i < stt.NumFields(); i++ {
+		ft := stt.Field(i).Type()
+		switch ft.Underlying().(type) {
+		case *types.Struct, *types.Array:
+			return "", false
+		}
+		name, _ := FieldMapName(kt, i)
+		so := SortOf(ft)
+		m := s.getMap(st, name, mapSortOfElem(so))
+		sorts = append(sorts, so)
+		args = append(args, fmt.Sprintf("(select %s %s)", m, k.T))
+	}
+	f := s.declareFun("canon:"+typeShort(kt), sorts, "Int")
+	return fmt.Sprintf("(%s %s)", f, strings.Join(args, " ")), true
+}
+
 func (fr *frame) lookup(x *ssa.Lookup, st *State) {
 	s := fr.s
 	m := fr.val(x.X, st)
@@ -668,8 +701,14 @@ func (fr *frame) lookup(x *ssa.Lookup, st *State) {
 		return
 	}
 	mt := x.X.Type().Underlying().(*types.Map)
+	if ck, ok := fr.canonKey(k, mt.Key(), st); ok {
+		k = TV{T: ck, S: "Int", GT: mt.Key()}
+	}
 	switch mt.Key().Underlying().(type) {
 	case *types.Struct, *types.Array:
+		if strings.HasPrefix(k.T, "(|canon:") {
+			break
+		}
 		// composite keys compare structurally in Go but are references in this model:
 		// the lookup is abstracted to an arbitrary answer (sound over-approximation)
 		s.note("%s: lookup in a map keyed by %s abstracted (arbitrary result)", FuncKey(fr.fn), mt.Key().String())
